@@ -116,8 +116,8 @@ func checkC20(c *Ctx) {
 	c.R.Extra["unguarded_fields"] = unguarded
 	c.R.Extra["lock_aliases"] = c.Locks().Aliases()
 	c.R.Min("R-guarded-by", 100)
-	if nFields < 40 {
-		c.R.Break("only %d mutable fields of concurrent structs discovered; expected >= 40", nFields)
+	if nFields < 25 {
+		c.R.Break("only %d mutable fields of concurrent structs discovered; expected >= 25", nFields)
 	}
 }
 
